@@ -2,5 +2,5 @@
 
 package csidh
 
-// c14Backend: fp511_noasm.go is compiled.
-func c14Backend() string { return "generic" }
+// fp511_noasm.go is compiled.
+func init() { C14ReadBackend = func() string { return "generic" } }
